@@ -124,10 +124,23 @@ class _FixedRandom:
 IDS = ["i0", "i1", "i2", "i3"]
 
 
+class AgentId(str):
+    """an identifier that is a string without being exactly `str` and that prints differently from its value
+    (what a member of `class Role(str, Enum)` does)"""
+
+    def __str__(self):
+        return "AgentId.%s" % str.__str__(self).upper()
+
+
+def _I(name):
+    """identifier `name` in the identifier type of the partition (default: plain str)"""
+    return AgentId(name) if hx.P.get('idtype') == 'strsub' else name
+
+
 def _prestate(m, env, r, flags, spatial):
     res = []
     for i in range(r):
-        a = Agent(IDS[i], m)
+        a = Agent(_I(IDS[i]), m)
         if flags[i]:
             a.add_component(T1(a, m))
         if spatial:
@@ -153,7 +166,7 @@ def ids_step(c0: bool, c1: bool, c2: bool, c3: bool, cn: bool, j: int) -> bool:
     ref = _prestate(m, env, r, [c0, c1, c2, c3], spatial)
     if hx.P.get('completed'):
         m.complete()            # post-run bookkeeping on a finished model: membership and listings still follow
-    probe = IDS + ["ghost", "new"]
+    probe = [_I(x) for x in IDS + ["ghost", "new"]]
     if hx.P.get('alias'):
         # the deprecated camelCase entry points denote the same operations
         import warnings
@@ -161,16 +174,16 @@ def ids_step(c0: bool, c1: bool, c2: bool, c3: bool, cn: bool, j: int) -> bool:
         add_agent, remove_agent, get_agent = env.addAgent, env.removeAgent, env.getAgent
     else:
         add_agent, remove_agent, get_agent = env.add_agent, env.remove_agent, env.get_agent
-    target_id = "ghost" if j < 0 else IDS[0] if j == 0 else IDS[1] if j == 1 else IDS[2] if j == 2 else IDS[3]
+    target_id = _I("ghost" if j < 0 else IDS[0] if j == 0 else IDS[1] if j == 1 else IDS[2] if j == 2 else IDS[3])
     if op == 'add':
         # (partition 'foreign': the newcomer was built for ANOTHER model - e.g. it migrates between two simulations;
         # what counts is the environment it joins)
         home = Model() if hx.P.get('foreign') else m
         if hx.P.get('nested_newcomer'):
             # environments are agents too: a sub-environment (a nest, a patch) carrying a component joins like any agent
-            new = Environment(home, id="new" if j < 0 else target_id)
+            new = Environment(home, id=_I("new") if j < 0 else target_id)
         else:
-            new = Agent("new" if j < 0 else target_id, home)
+            new = Agent(_I("new") if j < 0 else target_id, home)
         if cn:
             new.add_component(T1(new, home))
         snap = _snapshot(m, env, ref + [new])
@@ -524,6 +537,7 @@ def obligations(tier):
     parts += [{"r": 2, "op": op, "world": w, "completed": True} for w in ("plain", "space") for op in ("add", "remove")]
     parts += [{"r": 2, "op": "add", "world": w, "foreign": True} for w in ("plain", "space")]
     parts += [{"r": 2, "op": op, "world": "plain", "nested_newcomer": True} for op in ("add",)]
+    parts += [{"r": 2, "op": op, "world": w, "idtype": "strsub"} for w in ("plain", "space") for op in ("add", "remove", "get", "get_strict")]
     if tier != "quick":
         parts += [{"r": r, "op": op, "world": "plain"} for r in (1, 3) for op in ("add", "remove", "get", "get_strict")]
         parts += [{"r": 2, "op": op, "world": w} for w in ("line", "discrete", "gridlike") for op in ("add", "remove")]
